@@ -39,7 +39,8 @@ CLAIMED["C02"] = {
             "selector, weights carry it or are empty, names carry their container's column selector or are dropped; the label "
             "filter pushes record, target, weight and counts under one condition; per-feature/per-target iteration attaches the "
             "name at the collapsed index; the raw-buffer split of owned data is dominated by a standard-layout test; every index vector handed to select(Axis(a), ..) is a permutation of, or draws "
-            "from, exactly 0..extent(a), and the ratio split point is ceil(nsamples as f32 * ratio). Not decided: multiset equality of rows as values.",
+            "from, exactly 0..extent(a), and the ratio split point is ceil(nsamples as f32 * ratio). Raw memory-order buffers (as_slice_memory_order, into_raw_vec, as_ptr) anywhere in the dataset and composing code are used by position only behind an is_standard_layout() test (or on arrays created in the same function), and exact-chunk iteration never drops a remainder. "
+            "Not decided: multiset equality of rows as values.",
     "design_ref": "DESIGN.md section 4, C02",
     "note": "Trusted: rustc resolution/typeck, the fact dump, documented semantics of ndarray selection methods and Vec::split_off.",
     "technique": _T + ": provenance trace of output containers with selector extraction and sibling agreement of selectors",
@@ -65,7 +66,9 @@ CLAIMED["C04"] = {
             "equal the documented range table (strictness included: `<` vs `<=` changes the set); check(self) must be "
             "check_ref()? plus an unchanged projection of self; every fit/fit_with/transform entry point on an unchecked "
             "builder must be dominated by the check and return its error; checked types must not be constructible from "
-            "caller-supplied values outside the guard. Not decided: behaviour of training on valid parameters.",
+            "caller-supplied values outside the guard. predict_inplace never reads what the caller's buffer held and writes every element on every path (no compound assignment, no BLAS-style accumulation with beta != 0, no loop body that leaves an element unwritten), so the in-place form agrees with the allocating forms for any buffer. "
+            "Range tests are evaluated on the parameter itself, not on a narrowed copy (to_f32, as f32, to integer). "
+            "Not decided: behaviour of training on valid parameters.",
     "design_ref": "DESIGN.md section 4, C04",
     "note": "Trusted: rustc resolution/typeck, the fact dump, the documented range table frozen in rules/c04.py (one source reference per row). NaN/infinite parameter values are outside the claim, as in the property.",
     "technique": _T + ": guard extraction + interval algebra vs documented table, dominance of the check over entry points, who-may-construct on checked types",
@@ -79,7 +82,8 @@ CLAIMED["C07"] = {
             "in all three kinds - for the k-d tree read from the typed HIR of the kdtree crate at the locked version and "
             "intersected with linfa's own post-filter; a homogeneity-degree (dimensional) analysis of the four provided metrics shows "
             "`distance` of degree 1 in the coordinate differences on every branch and rdistance / rdist_to_dist / dist_to_rdist "
-            "consistent with one reduced degree (a squared distance returned as a distance is degree 2); no query answers Ok before its dimension test. Not decided: geometric sufficiency of pruning bounds, k-NN ties.",
+            "consistent with one reduced degree (a squared distance returned as a distance is degree 2); no query answers Ok before its dimension test. Raw memory-order buffers of the stored batch are used by position only behind a standard-layout test. "
+            "Not decided: geometric sufficiency of pruning bounds, k-NN ties.",
     "design_ref": "DESIGN.md section 4, C07",
     "note": "Trusted: rustc resolution/typeck, the fact dump (also of the locked kdtree dependency), consistency of each metric's four Distance methods.",
     "technique": _T + ": unit-of-measure tag inference (dist/rdist), sibling agreement of argument checks and of the radius relation, dependency facts for kdtree, homogeneity-degree abstract interpretation of the Distance impls",
@@ -92,7 +96,8 @@ CLAIMED["C08"] = {
             "algorithms build their index only through the configurable NearestNeighbour and query it with the tolerance; results of "
             "within_range (documented as unordered) are never used by rank without a sort; a DBSCAN seed is skipped only when already labelled or when its neighbour count is "
             "below min_points; OPTICS inserts a sample into `processed` in the same step in which it appends it to the ordering. Independence from the index kind further "
-            "relies on C07. Not decided: OPTICS reachability values, border-point labels.",
+            "relies on C07. OPTICS picks the next seed from a canonically ordered list (a total sort on the indices before the pick, or an index tie-break), so ties in reachability do not expose the neighbour index's order; the radius relation of the three index kinds (C07) is checked here too. "
+            "Not decided: OPTICS reachability values, border-point labels.",
     "design_ref": "DESIGN.md section 4, C08",
     "note": "Trusted: rustc resolution/typeck, the fact dump.",
     "technique": _T + ": control dependence of frontier insertions on the canonical core condition, order taint of range-query results",
@@ -105,7 +110,8 @@ CLAIMED["C09"] = {
             "function of state saved under the same acceptance guard as the returned centroids (never of per-restart scratch "
             "state); the buffers behind inertia and counts were filled from the centroid matrix that is returned, with no "
             "reassignment in between on any path; every call of the scan or of the update helpers passes the model's / parameter "
-            "set's own metric; an initialiser that returns a zero-allocated centroid matrix fills it in loops without early exit. Not decided: cost monotonicity, bounding box, numeric inertia values.",
+            "set's own metric; an initialiser that returns a zero-allocated centroid matrix fills it in loops without early exit. A best-of-n loop that saves state when a candidate beats the incumbent also updates the incumbent (fit_with's initialisation candidates included); exact-chunk iteration over per-sample buffers never drops a remainder and raw buffers are used by position only behind a layout test. "
+            "Not decided: cost monotonicity, bounding box, numeric inertia values.",
     "design_ref": "DESIGN.md section 4, C09",
     "note": "Trusted: rustc resolution/typeck, the fact dump, Distance::rdistance being the reduced distance of the configured metric.",
     "technique": _T + ": call-graph agreement on one arg-min routine, guarded-state consistency and reaching-definition freshness of the result fields",
@@ -120,6 +126,7 @@ CLAIMED["C10"] = {
             "arbitrarily far from the data; everything predict and predict_proba compute is reached from reads of the mixing weights, the "
             "means and the precision factors (a prediction from the unweighted component densities is not one of maximal probability); the empty-component test "
             "reads the raw responsibility masses and the log-sum-exp shifts every row by its own maximum. "
+            "The triangular factor stored in precisions_chol (writer) and its uses in compute_precisions_full and in the Mahalanobis term (readers) agree on its orientation - transposition parities read from the three sites; the best-of-n-restarts incumbent is updated with the state it guards. "
             "Not decided: positive definiteness, weights summing to one.",
     "design_ref": "DESIGN.md section 4, C10",
     "note": "Trusted: rustc resolution/typeck, the fact dump.",
@@ -135,7 +142,8 @@ CLAIMED["C12"] = {
             "list); every arm of the GLM link/distribution dispatchers calls the same operation of its variant; on every path "
             "(with and without intercept) the value of each loss / gradient function and of the optimiser's cost/gradient adapters is "
             "computed from the penalty strength alpha - a path-enumerating influence analysis; log-sum-exp shifts per row; no "
-            "quotient has an unguarded exponential of the score above and below the line. Not decided: stationarity of the "
+            "quotient has an unguarded exponential of the score above and below the line. For every link, inverse_derivative is the symbolic derivative of inverse (element-wise maps read into rational functions over x, exp, ln and differentiated by a small computer algebra), so the chain rule in the gradient differentiates the function the cost evaluates. "
+            "Not decided: stationarity of the "
             "returned point beyond these necessary conditions, numeric range of probabilities.",
     "design_ref": "DESIGN.md section 4, C12",
     "note": "Trusted: rustc resolution/typeck, the fact dump; soft-max is monotone per row.",
@@ -149,7 +157,8 @@ CLAIMED["C16"] = {
             "scalers every division by a data-derived quantity (std, max-min, max-abs, row norm) is control-dependent on a zero "
             "test of that divisor; LinearScaler::transform applies only affine per-element arithmetic (no clamp/min/max/abs, no "
             "branch on element values), so it is the fitted affine map on unseen rows too; every running column extremum starts from the identity element "
-            "of its own operation. Not decided: achieved means, variances, covariances.",
+            "of its own operation. No field of a fitted scaler/whitener is computed from another stored field that is mutated before the model is built; raw buffers are used by position only behind a layout test. "
+            "Not decided: achieved means, variances, covariances.",
     "design_ref": "DESIGN.md section 4, C16",
     "note": "Trusted: rustc resolution/typeck, the fact dump. Divisions by singular values in the whiteners are outside the rule (the property claims whitening on full-rank data only).",
     "technique": _T + ": provenance of the output dataset's containers, dominance of the empty-input guard, zero-guard contradiction rule on data-derived divisors",
@@ -161,6 +170,7 @@ CLAIMED["C18"] = {
             "into explained variances derives from the training sample count recorded at fit time (or, for the ratio, cancels); predict is (x - mean).components^T and inverse_transform composed with it is, in a "
             "non-commutative normal form over dot/+/-/t, exactly x.E^T.E - m.E^T.E + m, the projection about the mean; the variance ratio does not inherit a divisor that "
             "vanishes for one component. "
+            "Pca::predict_inplace overwrites the caller's buffer (no accumulation into it); no field of the fitted model is computed from another stored field that is mutated (whitening rescale) before the model is built. "
             "Not decided: orthonormality, ordering, spectral optimality, whitening covariance.",
     "design_ref": "DESIGN.md section 4, C18",
     "note": "Trusted: rustc resolution/typeck, the fact dump; the feature=blas branch cannot be built offline and is not analysed.",
@@ -176,7 +186,8 @@ CLAIMED["C13"] = {
             "unshrinking, i/j blocks of update equal up to renaming, is-free guard and summand on one variable, shrink tests' sign "
             "pattern); the three support-vector predicates are one expression; every status-change test compares against a snapshot taken "
             "before the first write; running bounds that start at +/-infinity are tightened by min/max respectively and every "
-            "branch of calculate_rho feeds y_i*G_i. Not decided: KKT conditions, rho, objective values.",
+            "branch of calculate_rho feeds y_i*G_i. The maintenance of gradient_fixed in update() ranges over all ntotal() positions (loop bounds and lengths of zipped kernel columns); a nu-classification hyperplane is rescaled with rho. "
+            "Not decided: KKT conditions, rho, objective values.",
     "design_ref": "DESIGN.md section 4, C13",
     "note": "Trusted: rustc resolution/typeck, the fact dump; the index-space tags are inferred from the code's own swap(); sibling rules were confirmed against the reference SMO algorithm.",
     "technique": _T + ": index-space tag inference, stale-loop-bound detection, sibling agreement (deviant-behaviour) rules on SolverState",
@@ -190,7 +201,8 @@ CLAIMED["C14"] = {
             "created at depth + 1; the running side weights start from zero or from a total of sample weights and the fraction "
             "mixing the child impurities divides by a total of sample weights (not a sample count); the records are read only "
             "through axis-aware accessors (no raw memory-order buffer without a layout test); the relative importances are a "
-            "sequence divided by its own sum. Not decided: impurity arithmetic, leaf majorities, importances.",
+            "sequence divided by its own sum. Every weight_for(i) receives a row index (an enumerate() index taken before any filter/skip/rev of the sample sequence); gini and entropy compare a class weight with zero only (thresholds apply to proportions: scale invariance in the sample weights). "
+            "Not decided: impurity arithmetic, leaf majorities, importances.",
     "design_ref": "DESIGN.md section 4, C14",
     "note": "Trusted: rustc resolution/typeck, the fact dump.",
     "technique": _T + ": sibling agreement of the fit-time and predict-time routing relation, dominance of limit tests over split creation, dependency analysis of weight accumulators, raw-buffer who-may-call rule",
@@ -205,7 +217,8 @@ CLAIMED["C19"] = {
             "nameable serialisable type instantiated at f64 and f32 satisfies Serialize + DeserializeOwned; the one deliberately unrestored field (the tokenizer function) is protected by a "
             "serialised guard that is raised wherever a function is installed and checked first by every public entry of the fitted "
             "vectorisers. Holds for every "
-            "value of every such type. Not decided: bit-level behaviour of third-party serialisers.",
+            "value of every such type. In crates with a serialised regex no RegexBuilder option is set, so every compiled expression is determined by the pattern text that is serialised. "
+            "Not decided: bit-level behaviour of third-party serialisers.",
     "design_ref": "DESIGN.md section 4, C19",
     "note": "Trusted: serde_derive's expansion (the pinned version's output is what is analysed), serde impls of std/ndarray/sprs/rand_xoshiro/serde_regex, the format crate.",
     "technique": _T + " on the serde configuration: structure preservation read off the expanded derive impls, type closure, compile-only witness crate",
